@@ -5,6 +5,7 @@ import (
 	"strconv"
 	"strings"
 
+	"github.com/hedzr/is/states"
 	"github.com/hedzr/is/term/color"
 )
 
@@ -83,8 +84,12 @@ func (colorizeToolS) wrapHighlightColor(text string) string { //nolint:unused
 	return sb.String()
 }
 
+// The echo* helpers follow the process-wide no-color mode, just like
+// the color.Wrap* helpers do: a color that is switched on by one of
+// them is switched off by one of the others.
+
 func (colorizeToolS) echoBgColor(out io.Writer, clr color.Color) {
-	if clr != clrNone {
+	if clr != clrNone && !states.Env().IsNoColorMode() {
 		// _, _ = fmt.Fprintf(os.Stdout, "\x1b[%dm", c)
 		_, _ = out.Write([]byte("\x1b["))
 		_, _ = out.Write([]byte(strconv.Itoa(int(clr))))
@@ -93,7 +98,7 @@ func (colorizeToolS) echoBgColor(out io.Writer, clr color.Color) {
 }
 
 func (colorizeToolS) echoColor(out io.Writer, clr color.Color) {
-	if clr != clrNone {
+	if clr != clrNone && !states.Env().IsNoColorMode() {
 		// _, _ = fmt.Fprintf(os.Stdout, "\x1b[%dm", c)
 		_, _ = out.Write([]byte("\x1b["))
 		_, _ = out.Write([]byte(strconv.Itoa(int(clr))))
@@ -104,6 +109,9 @@ func (colorizeToolS) echoColor(out io.Writer, clr color.Color) {
 func (colorizeToolS) echoColorAndBg(out io.Writer, clr, bg color.Color) {
 	// _, _ = fmt.Fprintf(os.Stdout, "\x1b[%dm", c)
 
+	if states.Env().IsNoColorMode() {
+		return
+	}
 	if clr != clrNone {
 		_, _ = out.Write([]byte("\x1b["))
 		_, _ = out.Write([]byte(strconv.Itoa(int(clr))))
@@ -118,6 +126,9 @@ func (colorizeToolS) echoColorAndBg(out io.Writer, clr, bg color.Color) {
 
 func (colorizeToolS) echoResetColor(out io.Writer) { //nolint:unused //no
 	// _, _ = fmt.Fprint(os.Stdout, "\x1b[0m")
+	if states.Env().IsNoColorMode() {
+		return
+	}
 	_, _ = out.Write([]byte("\x1b[0m"))
 }
 
